@@ -33,7 +33,7 @@ class GenuineLedger:
         self.ui_hash = rng.randbytes(32)
         self.signer_hash = rng.randbytes(32)
         self.auth_signer_hash = rng.randbytes(32)
-        self.auth_signer_iter = rng.choice([0, 1, 300, 65535])
+        self.auth_signer_iter = rng.choice([0, 1, 300, 65535, 32767, 32768, rng.randrange(65536)])
         self.wallet = {p: g1.new_key(rng) for p in ALL_PATHS}
         self.best_block = rng.randbytes(32)
         self.last_tx = rng.randbytes(8)
